@@ -33,10 +33,15 @@ fn comp_name(tpl: &str) -> String {
 /// collected as include edges. The choice is a pure function of (template, target).
 fn include_stmt(tpl: &str, target: &str) -> String {
     let inc = format!("{{% include \"{}\" %}}", target);
-    match crate::rng::fnv1a(format!("{}>{}", tpl, target).as_bytes()) % 6 {
+    match crate::rng::fnv1a(format!("{}>{}", tpl, target).as_bytes()) % 10 {
         0 => format!("{{% if true %}}{}{{% endif %}}", inc),
         1 => format!("{{% for zq in [1] %}}{}{{% endfor %}}", inc),
         2 => format!("{{% set zs %}}{}{{% endset %}}{{{{ zs | safe }}}}", inc),
+        // the less common bodies: for-else, elif / else branches, a filter section
+        3 => format!("{{% for zq in [] %}}{{% else %}}{}{{% endfor %}}", inc),
+        4 => format!("{{% if false %}}{{% elif true %}}{}{{% endif %}}", inc),
+        5 => format!("{{% if false %}}{{% else %}}{}{{% endif %}}", inc),
+        6 => format!("{{% filter safe %}}{}{{% endfilter %}}", inc),
         _ => inc,
     }
 }
@@ -74,6 +79,29 @@ pub fn render_src(s: &GSpec) -> String {
         out.push_str("{{ super() }}");
     }
     out.push_str("]{% endblock %}>");
+    // inert text (a pure function of the name): tags inside a comment are not tags — an
+    // `include` / `extends` of the template itself that must create no edge
+    if crate::rng::fnv1a(s.name.as_bytes()) % 3 == 0 {
+        out.push_str(&format!("{{# {{% include \"{}\" %}}{{% extends \"{}\" %}} #}}", s.name, s.name));
+    }
+    out
+}
+
+/// The source without its comments (what the reference model reads edges from).
+fn without_comments(src: &str) -> String {
+    let mut out = String::with_capacity(src.len());
+    let mut rest = src;
+    while let Some(a) = rest.find("{#") {
+        out.push_str(&rest[..a]);
+        match rest[a..].find("#}") {
+            Some(b) => rest = &rest[a + b + 2..],
+            None => {
+                rest = "";
+                break;
+            }
+        }
+    }
+    out.push_str(rest);
     out
 }
 
@@ -96,6 +124,8 @@ fn quoted_after(src: &str, from: usize) -> Option<(String, usize)> {
 }
 
 pub fn parse_node(src: &str) -> Node {
+    let stripped = without_comments(src);
+    let src = stripped.as_str();
     let mut n = Node::default();
     if let Some(p) = src.find("{% extends ") {
         if let Some((t, _)) = quoted_after(src, p) {
@@ -938,7 +968,10 @@ pub fn generate(seed: u64, tier: &str, property: &str) -> RegScenario {
         config: Config { autoescape: None, prefixes, delims: Default::default(), global: SCtx::default(), custom: false },
         hash_base: rng.next_u64(),
         contexts: vec![SCtx::default()],
-        probe: Probe { names: probe_names, blocks: vec!["b".to_string()], comps },
+        probe: {
+            let oneoffs: Vec<String> = comps.iter().map(|c| format!("one-off {{{{ <{}/> }}}}", c.name)).collect();
+            Probe { names: probe_names, blocks: vec!["b".to_string()], comps, oneoffs }
+        },
         ops,
         notes,
         fresh_seed: rng.next_u64(),
